@@ -90,4 +90,53 @@ StageFails(m, c, stages) ==
       \cup (IF "sort" \in names /\ ~given THEN {"S.sort.without_selector"} ELSE {})
 
 StageClasses(stages) == {"stage:" \o stages[k].name : k \in 1..Len(stages)}
+
+---------------------------------------------------------------------------
+\* The inside of one prediction.  Predict.tla gives the three results in closed form; the library gets there by aggregating
+\* every team (no tau), evaluating the normal CDF at one standardised difference per ordered pair (two per pair for the draw
+\* band), the inverse CDF once for the draw margin, and - predict_rank - ranking the resulting vector.  Bound here: every
+\* argument the CDF was evaluated at must be one of the rule's standardised differences and every one of those must have been
+\* evaluated, as often as the rule has pairs; every value returned by the CDF is the CDF; the team aggregates; the quantile
+\* asked for is (1 + 1/N)/2; the ranking is competition ranking of exactly the vector that is returned as probabilities.
+PTol == "1E-11"
+PredictStageFails(m, teams, op, stages) ==
+  LET T  == TeamsVals(teams)
+      n  == Len(T)
+      A  == PAgg(T)
+      N  == Players(T)
+      mg == DrawMargin(m.beta, T)
+      cnt == IF op = "win" /\ n = 2 THEN N ELSE n          \* the count in the performance variance
+      sd(a, b) == PairSd(m.beta, cnt, A[a], A[b])
+      d(a, b)  == A[a].mu -- A[b].mu
+      pairs == {<<a, b>> \in (1..n) \X (1..n) : a # b}
+      \* the standardised differences the rule evaluates the CDF at
+      want == IF op = "win" THEN (IF n = 2 THEN {d(1, 2) // sd(1, 2)} ELSE {d(p[1], p[2]) // sd(p[1], p[2]) : p \in pairs})
+              ELSE IF op = "draw" THEN {(mg -- d(p[1], p[2])) // sd(p[1], p[2]) : p \in pairs} \cup {(d(p[1], p[2]) -- mg) // sd(p[1], p[2]) : p \in pairs}
+              ELSE {(d(p[1], p[2]) -- mg) // sd(p[1], p[2]) : p \in pairs}
+      howmany == IF op = "win" THEN (IF n = 2 THEN 1 ELSE n * (n - 1)) ELSE IF op = "draw" THEN 2 * n * (n - 1) ELSE n * (n - 1)
+      zclose(z, x) == RIsReal(z) /\ RWithin(z, x, (PTol ** RAbs(x)) ++ "1E-13")
+      F(s) ==
+        CASE s.name = "phi" ->
+               (IF Len(s.nums) # howmany THEN {"S.phi.count"} ELSE {})
+               \cup (IF \E i \in 1..Len(s.nums) : ~\E x \in want : zclose(s.nums[i], x) THEN {"S.phi.argument_not_of_the_rule"} ELSE {})
+               \cup (IF \E x \in want : ~\E i \in 1..Len(s.nums) : zclose(s.nums[i], x) THEN {"S.phi.pair_not_evaluated"} ELSE {})
+               \cup (IF \E i \in 1..Len(s.nums) : RIsReal(s.nums[i]) /\ RLt(RAbs(s.nums[i]), "37") /\
+                          ~(RIsReal(s.nums2[i]) /\ RWithin(s.nums2[i], RPhi(s.nums[i]), "1E-12" ** RPhi(s.nums[i]))) THEN {"S.phi.value"} ELSE {})
+          [] s.name = "phi_inv" ->
+               (IF op = "win" THEN {"S.phi_inv.not_used_by_predict_win"}
+                ELSE (IF ~RWithin(s.nums[1], ("1" ++ ("1" // RNorm(N))) // "2", "1E-15") THEN {"S.phi_inv.argument"} ELSE {})
+                     \cup (IF ~(RIsReal(s.nums2[1]) /\ RWithin(RPhi(s.nums2[1]), s.nums[1], "1E-13")) THEN {"S.phi_inv.value"} ELSE {}))
+          [] s.name = "pagg" ->
+               (IF \E i \in 1..Len(s.ints) : s.ints[i] \notin 1..n THEN {"S.pagg.shape"}
+                ELSE (IF \E i \in 1..Len(s.ints) : ~SClose(s.nums[i], A[s.ints[i]].mu, RSumAbsSeq(PMat([j \in 1..Len(T[s.ints[i]]) |-> T[s.ints[i]][j].mu])))
+                        THEN {"S.pagg.mu"} ELSE {})
+                     \cup (IF \E i \in 1..Len(s.ints) : ~SClose(s.nums2[i], A[s.ints[i]].var, A[s.ints[i]].var) THEN {"S.pagg.sigma_squared"} ELSE {})
+                     \cup (IF {s.ints[i] : i \in 1..Len(s.ints)} # 1..n THEN {"S.pagg.team_not_aggregated"} ELSE {}))
+          [] s.name = "rank_in" ->
+               (IF op # "rank" THEN {"S.rank_in.only_predict_rank_ranks"}
+                ELSE LET v == s.nums
+                         rd == [i \in 1..Len(v) |-> 1 + Cardinality({q \in 1..Len(v) : RLt(v[q], v[i])})]
+                     IN  (IF s.ints # rd THEN {"S.rank_in.not_competition_ranking"} ELSE {}))
+          [] OTHER -> {"S.unknown_stage:" \o s.name}
+  IN  UNION {F(stages[k]) : k \in 1..Len(stages)}
 =============================================================================
